@@ -5,7 +5,7 @@ from hypothesis import strategies as st
 
 from vlib import evo
 from vlib.runner import fail, hyp_run
-from props.c07_evolvent_bijection import make, check_children
+from props.c07_evolvent_bijection import make, check_children, vias
 
 LEVEL = "exploration"
 RULE = ("(a) exhaustive: for every N in 2..5 and every m with N*m <= LIMIT (quick 20, thorough 24) EVERY pair of "
@@ -77,7 +77,7 @@ def cases(draw):
     n, m = draw(evo.nm_pairs())
     nm = n * m
     kind = draw(st.sampled_from(["consecutive", "nesting", "pair", "pair", "straddle", "straddle"]))
-    case = {"n": n, "m": m, "kind": kind}
+    case = {"n": n, "m": m, "kind": kind, "via": draw(vias)}
     if kind in ("consecutive", "nesting"):
         case["i"] = draw(evo.indices(nm))
         return case
@@ -121,12 +121,13 @@ def body(case):
     n, m = case["n"], case["m"]
     nm = n * m
     T = 1 << nm
-    classes = ["N=%d" % n, "kind=" + case["kind"], "Nm>=20" if nm >= 20 else "Nm<20"]
+    via = case.get("via", "ctor")
+    classes = ["N=%d" % n, "kind=" + case["kind"], "Nm>=20" if nm >= 20 else "Nm<20", "via=" + via]
     if case["kind"] == "consecutive":
         i = min(case["i"], T - 2)
         if i < 0:
             return False, classes
-        ev = make(n, m)
+        ev = make(n, m, None, None, via)
         a = evo.cells_unit(ev.GetImage(evo.x_of(evo.num_last(i, nm))), m)
         b = evo.cells_unit(ev.GetImage(evo.x_of(evo.num_first(i + 1, nm))), m)
         if a is None or b is None:
@@ -140,7 +141,7 @@ def body(case):
     if case["kind"] == "nesting":
         if n * (m + 1) > 50:
             return False, classes
-        msg = check_children(make(n, m), make(n, m + 1), n, m, case["i"])
+        msg = check_children(make(n, m, None, None, via), make(n, m + 1, None, None, via), n, m, case["i"])
         if msg:
             fail(msg)
         return False, classes
@@ -149,7 +150,7 @@ def body(case):
     xa, xb = evo.x_of(a), evo.x_of(b)
     if xb - xa < 2.0 ** -nm:
         raise RuntimeError("harness: pair closer than 2^-Nm")
-    ev = make(n, m, lo, hi)
+    ev = make(n, m, lo, hi, via)
     ya, yb = ev.GetImage(xa), ev.GetImage(xb)
     dist = math.sqrt(sum((float(p) - float(q)) ** 2 for p, q in zip(ya, yb)))
     side = max(h - l for l, h in zip(lo, hi))
